@@ -1078,3 +1078,104 @@ Lemma NoDup_nodupb l : NoDup l -> nodupb l = true.
 Proof.
   induction 1 as [|x r NI _ IH]; simpl; [reflexivity|]. rewrite IH, andb_true_r. apply negb_true_iff. now apply smem_false.
 Qed.
+
+(* ==================================================================================== *)
+(* Type parameters of the mock: blank parameters get fresh printed names                 *)
+(* ==================================================================================== *)
+Lemma tp_search_spec ex bad base : forall f i c,
+  tp_search ex bad base f i = Some c -> ~ In (ex c) bad /\ exists j, c = cand 1 base j.
+Proof.
+  induction f as [|f IH]; simpl; intros i c H; [discriminate|].
+  destruct (smem (ex (cand 1 base i)) bad) eqn:E; [now apply IH in H|].
+  injection H as <-. split; [now apply smem_false | eauto].
+Qed.
+
+Lemma tp_search_none ex bad base : forall f i,
+  tp_search ex bad base f i = None -> forall j, i <= j < i + f -> In (ex (cand 1 base j)) bad.
+Proof.
+  induction f as [|f IH]; simpl; intros i H j Hj; [lia|].
+  destruct (smem (ex (cand 1 base i)) bad) eqn:E; [|discriminate].
+  destruct (Nat.eq_dec j i) as [->|NE]; [now apply smem_In|]. apply (IH (S i) H). lia.
+Qed.
+
+(* the fuel |bad|+1 always suffices when Exported keeps the candidates apart (pigeonhole) *)
+Lemma tp_pick_total ex bad base :
+  (forall i j, ex (cand 1 base i) = ex (cand 1 base j) -> i = j) -> exists c, tp_pick ex bad base = Some c.
+Proof.
+  intros INJ. unfold tp_pick. destruct (tp_search ex bad base (S (length bad)) 0) as [c|] eqn:E; [eauto|]. exfalso.
+  pose proof (tp_search_none _ _ _ _ _ E) as N.
+  set (L := map (fun j => ex (cand 1 base j)) (seq 0 (S (length bad)))).
+  assert (ND : NoDup L).
+  { apply FinFun.Injective_map_NoDup; [intros a b; apply INJ | apply seq_NoDup]. }
+  assert (IN : incl L bad).
+  { intros x Hx. apply in_map_iff in Hx as (j & <- & Hj). apply in_seq in Hj. apply N. lia. }
+  pose proof (NoDup_incl_length ND IN) as LE. unfold L in LE. rewrite map_length, seq_length in LE. lia.
+Qed.
+
+Lemma Forall2_len {A B} (P : A -> B -> Prop) l l' : Forall2 P l l' -> length l = length l'.
+Proof. induction 1; simpl; congruence. Qed.
+
+Section TParamsProofs.
+  Variable cx : ctx.
+  Let ex := cx_exported cx.
+
+  Definition kept (x : label * ty) (n : str) : Prop := blank (lname (fst x)) = false -> n = lname (fst x).
+
+  Lemma tp_names_inv : forall tps taken st ns,
+    tp_names cx taken st tps = Some ns -> Forall2 kept tps ns ->
+    incl (map ex (declared_names tps)) taken -> NoDup (map ex (declared_names tps)) ->
+    NoDup (map ex ns) /\
+    (forall m, In m ns -> In (ex m) (map ex (declared_names tps)) \/ ~ In (ex m) taken) /\
+    Forall2 (fun x n => blank (lname (fst x)) = true -> ~ In (ex n) taken) tps ns.
+  Proof.
+    induction tps as [|x r IH]; intros taken st ns H K INC ND.
+    - simpl in H. injection H as <-. split; [constructor|]. split; [intros m []|constructor].
+    - simpl in H. destruct (blank (lname (fst x))) eqn:B.
+      + destruct (tp_pick (cx_exported cx) (taken ++ snd (fst (add_var cx st x))) (last_name (snd (add_var cx st x)))) as [n|] eqn:P; [|discriminate].
+        destruct (tp_names cx (cx_exported cx n :: taken) (add_var cx st x) r) as [l|] eqn:R; [|discriminate].
+        injection H as <-. inversion K as [|? ? ? ? K1 K2]; subst.
+        assert (NT : ~ In (ex n) taken).
+        { destruct (tp_search_spec _ _ _ _ _ _ P) as [NI _]. intros X. apply NI. apply in_or_app. now left. }
+        assert (DN : declared_names (x :: r) = declared_names r) by (unfold declared_names; simpl; now rewrite B).
+        rewrite DN in *.
+        destruct (IH _ _ _ R K2) as (A1 & A2 & A3); [intros y Hy; right; now apply INC | exact ND|].
+        split; [|split].
+        * simpl. constructor; [|exact A1]. intros X. apply in_map_iff in X as (m & E & Hm).
+          destruct (A2 m Hm) as [D|D]; [apply NT; rewrite <- E; now apply INC | apply D; left; now rewrite E].
+        * intros m [<-|Hm]; [now right|]. destruct (A2 m Hm) as [D|D]; [now left | right; intros X; apply D; now right].
+        * constructor; [intros _; exact NT|]. revert A3. apply Forall2_imp. intros y m F Hb X. apply (F Hb). now right.
+      + destruct (tp_names cx taken (add_var cx st x) r) as [l|] eqn:R; [|discriminate].
+        injection H as <-. inversion K as [|? ? ? ? K1 K2]; subst. rewrite (K1 B) in *.
+        assert (DN : declared_names (x :: r) = lname (fst x) :: declared_names r) by (unfold declared_names; simpl; now rewrite B).
+        rewrite DN in *. simpl in ND, INC. inversion ND as [|? ? NI ND']; subst.
+        destruct (IH _ _ _ R K2) as (A1 & A2 & A3); [intros y Hy; apply INC; now right | exact ND'|].
+        split; [|split].
+        * simpl. constructor; [|exact A1]. intros X. apply in_map_iff in X as (m & E & Hm).
+          destruct (A2 m Hm) as [D|D]; [apply NI; now rewrite <- E | apply D; rewrite E; apply INC; now left].
+        * intros m [<-|Hm]; [left; now left|]. destruct (A2 m Hm) as [D|D]; [left; now right | now right].
+        * constructor; [congruence | exact A3].
+  Qed.
+
+  (* pairwise distinct printed names, blank parameters away from every declared name *)
+  Theorem tparams_distinct r tps ns :
+    mock_tparams cx r tps = Some ns -> Forall2 kept tps ns ->
+    NoDup (map ex (declared_names tps)) ->
+    NoDup (map ex ns) /\ length ns = length tps /\
+    Forall2 (fun x n => blank (lname (fst x)) = true -> ~ In (ex n) (map ex (declared_names tps))) tps ns.
+  Proof.
+    intros H K ND. destruct (tp_names_inv _ _ _ _ H K (fun y Hy => Hy) ND) as (A1 & _ & A3).
+    split; [exact A1|]. split; [symmetry; eapply Forall2_len; eauto | exact A3].
+  Qed.
+
+  (* never out of fuel when Exported keeps  n, n1, n2, ...  apart *)
+  Theorem tparams_total :
+    (forall base i j, ex (cand 1 base i) = ex (cand 1 base j) -> i = j) ->
+    forall tps taken st, exists ns, tp_names cx taken st tps = Some ns.
+  Proof.
+    intros INJ. induction tps as [|x r IH]; intros taken st; simpl; [eauto|].
+    destruct (blank (lname (fst x))).
+    - destruct (tp_pick_total (cx_exported cx) (taken ++ snd (fst (add_var cx st x))) (last_name (snd (add_var cx st x))) (INJ _)) as (c & ->).
+      destruct (IH (cx_exported cx c :: taken) (add_var cx st x)) as (l & ->). eauto.
+    - destruct (IH taken (add_var cx st x)) as (l & ->). eauto.
+  Qed.
+End TParamsProofs.
